@@ -144,27 +144,34 @@ class DynBaseRefDict(RefDict):
 
                 impl = value.interface._impl.idstr
                 root = self.owner.rootspace._dynbase.idstr
-                rootlen = len(root)
 
-                if root == impl:
-                    return self.owner.rootspace
-                elif root == impl[:rootlen]:
-                    return self.owner.rootspace.get_impl_from_name(
-                        impl[rootlen+1:]) # +1 to remove preceding dot
-                else:
-                    if value.refmode == "auto":
-                        if value.is_defined():
-                            return value
-                        else:
-                            return value.direct_bases[0]
-
-                    elif value.refmode == "relative":
-                        raise ValueError(
-                            "'%s' referred as '%s' is out of '%s'" %
-                            (impl, value.idstr, root)
-                        )
+                # Look for the target in the tree of the root ItemSpace,
+                # then in the trees of the ItemSpaces enclosing it
+                space = self.owner.rootspace
+                while True:
+                    base = space._dynbase.idstr
+                    if base == impl:
+                        return space
+                    elif impl.startswith(base + "."):
+                        return space.get_impl_from_name(impl[len(base)+1:])
+                    elif space.parent.is_dynamic():
+                        space = space.parent.rootspace
                     else:
-                        raise RuntimeError("must not happen")
+                        break
+
+                if value.refmode == "auto":
+                    if value.is_defined():
+                        return value
+                    else:
+                        return value.direct_bases[0]
+
+                elif value.refmode == "relative":
+                    raise ValueError(
+                        "'%s' referred as '%s' is out of '%s'" %
+                        (impl, value.idstr, root)
+                    )
+                else:
+                    raise RuntimeError("must not happen")
 
             else:   # absolute
                 return value
